@@ -33,7 +33,7 @@ EXTENDS Integers, Sequences, FiniteSets, TLC, Json, IOUtils, XData
      ExitCode native exit status
      Entry    set of addresses the debugger may keep patched for itself (entry point)
    as plain definitions, so that TLC evaluates them once. *)
-CONSTANTS MaxCmd, MaxBps
+CONSTANTS MaxCmd, MaxBps, MaxBk
 
 N == Len(X)
 Exited == N + 1
